@@ -4,9 +4,13 @@ from uvlib import BrokenTie, chunks, hexs
 from checks import enginelib as E
 from checks.enginelib import charts, shrink
 
-THEOREMS = []
+P = "UscxmlVerif.Properties.C14."
+THEOREMS = [
+    (P + "restore_snapshot", "proved", "for EVERY chart and every engine state at which a snapshot may be taken (Snapshotable: sorted sets, post-fix view = rebuilt view, empty internal queue, no cycle info, not cancelled): restore (snapshot e) is e except for the observer log and the rebuilt post-fix view, which agrees with the original on every state that has transitions"),
+    (P + "snapshot_restore_idempotent", "proved", "a second snapshot taken from the restored state equals the first"),
+    (P + "insAll_nil_sorted", "proved", "re-inserting a strictly ascending array of state numbers one by one rebuilds exactly that set (what deserialize does with configuration, history and invocations)"),
+]
 LEAN_FILES = ["UscxmlVerif.Properties.C14"]
-FINISH = {"level": "exploration"}
 
 
 def sline(engine, d, pre, cont, other, dm, nvars):
@@ -73,6 +77,17 @@ def run(ctx):
                     ctx.violation("resume-%d" % len(ctx.violations), "serialize", [l],
                                   detail="engine %s, datamodel %s: %s\nchart: %s\nprefix/continuation: %s" % (engine, dm, why, charts.sexpr(d)[:500], l.split("\t")[2:4]))
     ctx.add_suite("serialize", **st)
+    # the hypothesis of restore_snapshot is what the engine model maintains: evaluated at every stable point
+    sc = E.gen_cases(rng, 400 if quick else 10000, p_history=0.5, max_events=4)
+    res = ctx.driver_lines("snapcheck", ["large\t%s\t%s" % (charts.sexpr(d), ",".join(e) or "-") for d, e in sc], timeout=1800)
+    st2 = dict(inputs=len(sc), ok=0, stable_points=0, violations=0)
+    for (d, e), r in zip(sc, res):
+        if r.startswith("ok"): st2["ok"] += 1; st2["stable_points"] += int(r.split(" ")[1]); continue
+        st2["violations"] += 1
+        if len(ctx.violations) < 4:
+            ctx.violation("snapshotable-%d" % len(ctx.violations), "snapshotable", [E.case_line("large", d, e)], found_input=False,
+                          detail="the hypothesis of restore_snapshot (or its conclusion) fails on a state the engine model reaches: %s\nchart: %s events %s" % (r, charts.sexpr(d)[:500], e))
+    ctx.add_suite("snapshotable", **st2)
     ctx.sample({"request": lines[0][:300]})
     ctx.coverage["evaluations"] = st["inputs"]
     ctx.coverage["distinct_nontrivial"] = st["identical"]
